@@ -14,7 +14,7 @@ META = {
             'generator wrote into the text; distinct = hash(statement shapes, pool sizes, language); non-trivial = at least one Alloc event or an expected refusal',
     'assumptions': ['general-purpose register sets per game are taken from the documented lists (README/comments), encoded independently in vlib/realenv.py',
                     'lexical lifetimes: a local holds its register until the end of its block'],
-    'floors': {'alloc_events': 100, 'expected_refusals_observed': 3},
+    'floors': {'alloc_events': 100, 'expected_refusals_observed': 3, 'directed_single_mention': 100},
 }
 SIZES = {'quick': 4000, 'thorough': 80000}
 
@@ -25,7 +25,9 @@ def judge(ctx, cfg, body, req, resp, langtag, general_use=None, pool_sizes=None)
         ctx.count('compile_panics'); ctx.inconcl('compile-panic (reported by C04)'); return
     stage = resp.get('stage')
     if stage not in ('done', 'lower'):
-        ctx.count('rejected_before_lowering'); ctx.seen('reject_reasons', core.norm_msg(core.headline(resp.get('diag', '')))); return
+        ctx.count('rejected_before_lowering'); ctx.seen('reject_reasons', core.norm_msg(core.headline(resp.get('diag', ''))))
+        if body.shape and body.shape[0] == 'single-mention': ctx.count('directed_rejected'); ctx.seen('directed_reject_reasons', '%s %s: %s' % (langtag.split(':')[0], body.shape[1], core.norm_msg(core.headline(resp.get('diag', '')))[:60]))
+        return
     ctx.evaluations += 1
     evs = resp.get('reg_events') or []
     nalloc = sum(1 for e in evs if e['ev'] == 'alloc')
@@ -69,14 +71,23 @@ def run_shard(ctx):
     r = ctx.rng
     for i in range(n):
         which = r.wpick([('tl', 5), ('anm', 2.5), ('ecl', 2.5)])
+        directed = r.chance(0.25)
         if which == 'tl':
             cfg = TL.Config(r, pools='any')
             feats = LW.feats_for(cfg, r)
             env = LW.tl_env(cfg, feats, r)
             anti = r.chance(0.12)
-            body = gen_body(r, env, sentinel='ins_101();' + ('\nins_%d();' % TL.ANTI_SCRATCH if anti else ''),
-                            max_depth=r.pick([1, 2, 3]), max_stmts=r.pick([3, 6, 10]), expr_depth=r.pick([1, 2, 3, 4]))
-            body.anti_scratch = anti
+            body = None
+            if directed:
+                # one register mentioned exactly once, in a chosen syntactic context, under register pressure
+                nm = (lambda x: TL.NAMES[x]) if cfg.aliases else (lambda x: 'REG[%d]' % x)
+                si, sf = cfg.scratch()
+                body = LW.gen_single_mention(r, si, sf, TL.EXTRA_INT[1:] + TL.EXTRA_INT[:1], TL.EXTRA_FLOAT, nm)
+                if body is not None: ctx.count('directed_single_mention'); ctx.seen('directed_contexts', body.shape[1])
+            if body is None:
+                body = gen_body(r, env, sentinel='ins_101();' + ('\nins_%d();' % TL.ANTI_SCRATCH if anti else ''),
+                                max_depth=r.pick([1, 2, 3]), max_stmts=r.pick([3, 6, 10]), expr_depth=r.pick([1, 2, 3, 4]))
+                body.anti_scratch = anti
             LW.reconcile_mentions(ctx, body)
             req, resp = LW.run_case(ctx, cfg, body, 1, presimplify=r.chance(0.5), difficulties=(0,))
             si, sf = cfg.scratch()
@@ -86,9 +97,19 @@ def run_shard(ctx):
             feats = realenv.feats_for(le, r)
             env = realenv.make_env(le, feats, r)
             anti = le.anti_scratch is not None and r.chance(0.12)
-            body = gen_body(r, env, sentinel=le.sentinel + ('\nins_%d();' % le.anti_scratch if anti else ''),
-                            max_depth=r.pick([1, 2, 3]), max_stmts=r.pick([3, 6, 10]), expr_depth=r.pick([1, 2, 3]))
-            body.anti_scratch = anti
+            body = None
+            if directed:
+                gi, gf = list(le.gp_int), list(le.gp_float)
+                r.shuffle(gi); r.shuffle(gf)
+                ctxs = [c for c in LW.MENTION_CONTEXTS if le.has_diff or 'diffswitch' not in c]
+                if 'casts' not in feats: ctxs = [c for c in ctxs if c != 'cast']
+                body = LW.gen_single_mention(r, gi[2:], gf[2:], gi[:2], gf[:2], lambda x: 'REG[%d]' % x, call_int='ins_2001', call_float='ins_2002',
+                                             has_cast='casts' in feats, ctxs=ctxs, sentinel=le.sentinel)
+                if body is not None: ctx.count('directed_single_mention'); ctx.seen('directed_contexts', body.shape[1])
+            if body is None:
+                body = gen_body(r, env, sentinel=le.sentinel + ('\nins_%d();' % le.anti_scratch if anti else ''),
+                                max_depth=r.pick([1, 2, 3]), max_stmts=r.pick([3, 6, 10]), expr_depth=r.pick([1, 2, 3]))
+                body.anti_scratch = anti
             LW.reconcile_mentions(ctx, body, {})
             req = {'op': 'vm_lower', 'lang': le.lang, 'mapfile': le.mapfile, 'body': body.text, 'states': [], 'difficulties': [0],
                    'check_regs': [], 'presimplify': True}
